@@ -74,6 +74,16 @@ func (s *QueryPlanStep) SetComputedValues(ctx *PlanningContext) *QueryPlanStep {
 	if s.formatter == nil {
 		s.formatter = format.NewBufferedFormatter().WithSchema(ctx.Schema)
 	}
+	// the sub-query declares the client's variables with the types the client declared them with
+	// (the id variable of a child step is the gateway's own)
+	variableTypes := make(map[string]string)
+	for _, vd := range ctx.Operation.VariableDefinitions {
+		if vd.Type == nil || (vd.Variable == common.IDFieldName && len(s.InsertionPoint) > 0) {
+			continue
+		}
+		variableTypes[vd.Variable] = vd.Type.String()
+	}
+	s.formatter.WithVariableTypes(variableTypes)
 	// set OperationName and OperationType for root steps if provided
 	// by realization there're no operations in sub query and they're all queries
 	if len(s.InsertionPoint) == 0 {
